@@ -220,6 +220,37 @@ def scenario(env, api, src, data, idx):
                 lk = env.leaks()
                 if lk:
                     probs.append(('fd-leak', 'with TdmsFile.open(...) block left %r open' % (lk,)))
+        elif api == 'with-open-raise':
+            class Boom(Exception):
+                pass
+            entered = []
+            kept = []
+            try:
+                with H.TdmsFile.open(source) as tf:
+                    entered.append(1)
+                    kept.extend(ch for g in tf.groups() for ch in g.channels())
+                    ops = _safe_ops(tf)
+                    if ops:
+                        try:
+                            ops[0][1]()
+                        except Exception:  # noqa
+                            pass
+                    raise Boom('error inside the with-block')
+            except Boom:   # the exception (and through its traceback the file object) is still alive here
+                lk = env.leaks()
+                if lk:
+                    probs.append(('fd-leak-after-raise', 'with-block left by an exception: %r still open' % (lk,)))
+                for ch in kept:
+                    try:
+                        n_ = len(ch)
+                        got = ch.read_data(0, 1) if n_ else None
+                    except Exception:  # noqa
+                        continue
+                    if n_ and got is not None and len(got):
+                        probs.append(('read-after-with-block', 'channel.read_data after the with-block was left by an exception returned data'))
+                        break
+            except Exception:  # noqa - open() itself raised: not judged
+                pass
         elif api == 'open-close-read-close':
             try:
                 tf = H.TdmsFile.open(source)
@@ -289,7 +320,7 @@ def scenario(env, api, src, data, idx):
 
 
 HANGS = [0]
-APIS = ['read', 'read_metadata', 'with-open', 'open-close-read-close']
+APIS = ['read', 'read_metadata', 'with-open', 'with-open-raise', 'open-close-read-close']
 
 
 def run_base(item):
@@ -325,6 +356,29 @@ def run_base(item):
                         res['counters']['runs'] += 1
                         res['counters']['nontrivial'] += 1 if fault[0] != 'none' else 0
                         record(fault, api, src, withidx, scenario(env, api, src, fdata, idx))
+        if part == 0:
+            # the data file cannot be opened although an index file sits beside it (moved away / replaced by a directory)
+            import pathlib
+            for how in ('missing', 'directory'):
+                for spell in ('str', 'pathlib'):
+                    for api in ('read', 'read_metadata'):
+                        env.put(data, idx)
+                        os.remove(env.path)
+                        if how == 'directory':
+                            os.mkdir(env.path)
+                        res['counters']['runs'] += 1
+                        res['counters']['nontrivial'] += 1
+                        probs = []
+                        src_ = env.path if spell == 'str' else pathlib.Path(env.path)
+                        try:
+                            getattr(H.TdmsFile, api)(src_)
+                        except Exception:  # noqa - exception alive while we look
+                            lk = env.leaks()
+                            if lk:
+                                probs.append(('fd-leak-after-raise', '%s raised on an unopenable data file and left %r open' % (api, lk)))
+                        record(['data-' + how, spell], api, 'path', True, probs)
+                        if how == 'directory':
+                            os.rmdir(env.path)
         # index faults (with the intact data file; thorough: also with every 7th data fault)
         ifaults = index_faults(idx, other)
         mine_i = [f for i, f in enumerate(ifaults) if i % nparts == part]
